@@ -159,6 +159,8 @@ def defects(base):
     for position in property_rows or [format_row + 1]:
         target = position if position in property_rows else None
         for name, row in (("empty-property-name", ["D", "", "1"]), ("unknown-property-name", ["D", "Colour", "red"]), ("inapplicable-property", ["D"] + INAPPLICABLE[fmt]),
+                          ("unknown-property-name:method", ["D", "validate", "1"]), ("unknown-property-name:method", ["D", "Set Property", "1"]), ("unknown-property-name:method", ["D", "__class__", "1"]),
+                          ("unknown-property-name:method", ["D", " validated bool", "true"]), ("unknown-property-name:attribute", ["D", "location", "here"]),
                           ("invalid-property-value", ["D", "Header", "minus one"])):
             if target is not None:
                 yield name, replaced(position, row), position + 1
@@ -247,6 +249,11 @@ def defects(base):
         for position in check_rows:
             row = rows[position]
             yield "empty-check-description", replaced(position, [row[0], ""] + row[2:]), position + 1
+            # an empty or blank description cell in front of an otherwise complete check (all cells one column to the right)
+            yield "empty-check-description:shifted", replaced(position, [row[0], ""] + row[1:]), position + 1
+            yield "empty-check-description:shifted", replaced(position, [row[0], "  "] + row[1:]), position + 1
+            # an empty rule cell followed by a cell that would be a rule: cells beyond the parsed columns are ignored, the rule is empty
+            yield "empty-check-rule-followed-by-a-cell", replaced(position, row[:3] + [""] + row[3:]), position + 1
             yield "duplicate-check-description", inserted(position + 1, row), position + 2
             yield "unknown-check-type", replaced(position, row[:2] + ["Nope"] + row[3:]), position + 1
             yield "missing-check-type", replaced(position, row[:2]), position + 1
